@@ -23,6 +23,10 @@ CODEC_CALL = re.compile(r"^quill::Codec<(.*)>::(compute_encoded_size|encode|deco
 FORMAT_CODEC = re.compile(r"^quill::(DeferredFormatCodec|DirectFormatCodec)<(.*)>::(compute_encoded_size|encode|decode_arg|decode_and_store_arg)$")
 
 
+def is_codec_call(x):
+    return isnode(x) and x["k"] in ("CallExpr", "CXXMemberCallExpr") and bool(codec_of(x.get("callee")) or FORMAT_CODEC.match(x.get("callee") or ""))
+
+
 def codec_of(callee):
     m = CODEC_CALL.match(callee or "")
     if m:
@@ -386,7 +390,7 @@ class Folder:
                 return
         if k == "BinaryOperator" and e["op"] == "=":
             lv = var_ref(e["lhs"])
-            calls = [x for x in walk(e["rhs"]) if x["k"] in ("CallExpr", "CXXMemberCallExpr") and codec_of(x.get("callee"))]
+            calls = [x for x in walk(e["rhs"]) if is_codec_call(x)]
             if calls:
                 before = len(items)
                 self._expr_stmt(e["rhs"], items)
@@ -404,7 +408,7 @@ class Folder:
                     self.env[lv] = new
             return
         if k == "CXXOperatorCallExpr" and (e.get("callee") or "").endswith("::operator=") and len(e.get("args", [])) == 2:
-            calls = [x for x in walk(e["args"][1]) if x["k"] in ("CallExpr", "CXXMemberCallExpr") and codec_of(x.get("callee"))]
+            calls = [x for x in walk(e["args"][1]) if is_codec_call(x)]
             if calls:
                 before = len(items)
                 self._expr_stmt(e["args"][1], items)
@@ -494,7 +498,7 @@ class Folder:
             self._add_terms(e, items)
             return
         # anything else: look for nested codec calls (e.g. in constructor arguments)
-        inner = [x for x in walk(e) if x["k"] in ("CallExpr", "CXXMemberCallExpr") and codec_of(x.get("callee"))]
+        inner = [x for x in walk(e) if is_codec_call(x)]
         for x in inner:
             self._expr_stmt(x, items)
 
@@ -659,12 +663,19 @@ def canon_term(t, pushes, enc_flat, origin=None):
         return "ref#%d(no value stored there)" % k
     if t[0] == "c":
         return str(t[1])
+    if t[0] in ("size", "has"):
+        # which object is meant is given by the position (designator path, nesting); the callee's own name for it is not comparable
+        return t[0] + "(.)"
     if t[0] in ("mul", "add"):
         return t[0] + "(" + ",".join(sorted(canon_term(x, pushes, enc_flat, origin) for x in t[1:])) + ")"
     return t[0] + ("(" + ",".join(canon_term(x, pushes, enc_flat, origin) if isinstance(x, tuple) else str(x) for x in t[1:]) + ")" if len(t) > 1 else "")
 
 
-def canon(flat, pushes, enc_flat):
+def all_fixed(flat):
+    return bool(flat) and all(f.kind == "F" for f in flat)
+
+
+def canon(flat, pushes, enc_flat, collapse=False):
     parts = []
     pending_f = 0
     pending_des = None
@@ -689,8 +700,10 @@ def canon(flat, pushes, enc_flat):
             body_enc = None
             if enc_flat is not None and i < len(enc_flat) and enc_flat[i].kind == "REP":
                 body_enc = enc_flat[i].body
-            inner = canon(f.body, pushes, body_enc if body_enc is not None else None)
+            inner = canon(f.body, pushes, body_enc if body_enc is not None else None, collapse)
             cnt = canon_term(f.count, pushes, enc_flat, f.origin)
+            if collapse and all_fixed(f.body):
+                inner = "F%d" % sum(x.n for x in f.body)
             m = re.match(r"^(?:@[^ ]*:)?F(\d+)$", inner)
             if m and re.match(r"^\d+$", cnt):
                 pending_f += int(m.group(1)) * int(cnt)
@@ -704,7 +717,7 @@ def canon(flat, pushes, enc_flat):
             e1 = e2 = None
             if enc_flat is not None and i < len(enc_flat) and enc_flat[i].kind == "OPT":
                 e1, e2 = enc_flat[i].body, enc_flat[i].orelse
-            parts.append("%sOPT[%s]{%s}{%s}" % (des_txt(f.des), canon_term(f.cond, pushes, enc_flat, f.origin), canon(f.body, pushes, e1), canon(f.orelse, pushes, e2)))
+            parts.append("%sOPT[%s]{%s}{%s}" % (des_txt(f.des), canon_term(f.cond, pushes, enc_flat, f.origin), canon(f.body, pushes, e1, collapse), canon(f.orelse, pushes, e2, collapse)))
     flush()
     return " ".join(parts)
 
